@@ -195,4 +195,153 @@ mod verif_kani_date {
         assert!((a < b) == (ka < kb) && (a == b) == (ka == kb) && (a <= b) == (ka <= kb), "date order is lexicographic (year, ordinal) = day-number order (Verus lemma dn_lex_mono)");
         assert!(a.cmp(&b) == ka.cmp(&kb));
     }
+
+    // ------------------------------------------------------------------------------------------
+    // C08: field replacement, month stepping, n-th weekday, years elapsed, quarter / CE year / days in month
+
+    // fns: Datelike::{with_month, with_month0} for NaiveDate, NaiveDate::with_mdf
+    #[kani::proof]
+    fn vk_date_with_month() {
+        let d = any_date();
+        let (y, dd) = (d.year(), d.day());
+        let v: u32 = kani::any();
+        kani::cover!(v == u32::MAX); kani::cover!(d.month() == 1 && dd == 31 && v == 2);
+        match d.with_month(v) {
+            Some(r) => assert!(wf(r) && r.year() == y && r.month() == v && r.day() == dd, "with_month changes only the month"),
+            None => assert!(!ymd_valid(y as i64, v as i64, dd as i64), "with_month is None only if no such date exists"),
+        }
+        match d.with_month0(v) {
+            Some(r) => assert!(wf(r) && r.year() == y && r.month0() == v && r.day() == dd, "with_month0 changes only the month"),
+            None => assert!(v == u32::MAX || !ymd_valid(y as i64, v as i64 + 1, dd as i64), "with_month0 is None only if no such date exists"),
+        }
+    }
+
+    // fns: Datelike::{with_day, with_day0} for NaiveDate
+    #[kani::proof]
+    fn vk_date_with_day() {
+        let d = any_date();
+        let (y, m) = (d.year(), d.month());
+        let v: u32 = kani::any();
+        kani::cover!(v == u32::MAX); kani::cover!(m == 2 && v == 29);
+        match d.with_day(v) {
+            Some(r) => assert!(wf(r) && r.year() == y && r.month() == m && r.day() == v, "with_day changes only the day"),
+            None => assert!(!ymd_valid(y as i64, m as i64, v as i64), "with_day is None only if no such date exists"),
+        }
+        match d.with_day0(v) {
+            Some(r) => assert!(wf(r) && r.year() == y && r.month() == m && r.day0() == v, "with_day0 changes only the day"),
+            None => assert!(v == u32::MAX || !ymd_valid(y as i64, m as i64, v as i64 + 1), "with_day0 is None only if no such date exists"),
+        }
+    }
+
+    // fns: Datelike::{with_ordinal, with_ordinal0} for NaiveDate
+    #[kani::proof]
+    fn vk_date_with_ordinal() {
+        let d = any_date();
+        let y = d.year();
+        let v: u32 = kani::any();
+        kani::cover!(v == 366); kani::cover!(v == u32::MAX);
+        match d.with_ordinal(v) {
+            Some(r) => assert!(wf(r) && r.year() == y && r.ordinal() == v, "with_ordinal changes only the ordinal"),
+            None => assert!(v == 0 || v as i64 > year_len(y as i64), "with_ordinal is None only if no such day exists"),
+        }
+        match d.with_ordinal0(v) {
+            Some(r) => assert!(wf(r) && r.year() == y && r.ordinal0() == v, "with_ordinal0 changes only the ordinal"),
+            None => assert!(v as i64 >= year_len(y as i64), "with_ordinal0 is None only if no such day exists"),
+        }
+    }
+
+    // fns: Datelike::with_year for NaiveDate, NaiveDate::from_mdf, Mdf::with_flags
+    #[kani::proof]
+    fn vk_date_with_year() {
+        let d = any_date();
+        let ny: i32 = kani::any();
+        kani::cover!(d.month() == 2 && d.day() == 29);
+        match d.with_year(ny) {
+            Some(r) => assert!(wf(r) && r.year() == ny && r.month() == d.month() && r.day() == d.day(), "with_year keeps month and day"),
+            None => assert!((ny as i64) < MIN_Y || (ny as i64) > MAX_Y || !ymd_valid(ny as i64, d.month() as i64, d.day() as i64), "with_year is None only out of range or for 29 Feb in a common year"),
+        }
+    }
+
+    fn months_target(y: i32, m: u32, delta: i64) -> (i64, i64) {
+        let t = y as i64 * 12 + m as i64 - 1 + delta;
+        // floor division by 12 in 32-bit arithmetic where possible
+        let q = if t >= i32::MIN as i64 && t <= i32::MAX as i64 { (t as i32).div_euclid(12) as i64 } else { t.div_euclid(12) };
+        (q, t - q * 12 + 1)
+    }
+
+    fn check_months(d: NaiveDate, n: u32, add: bool) {
+        let r = if add { d.checked_add_months(Months::new(n)) } else { d.checked_sub_months(Months::new(n)) };
+        let (ty, tm) = months_target(d.year(), d.month(), if add { n as i64 } else { -(n as i64) });
+        kani::cover!(r.is_some() && d.day() == 31 && tm == 2); kani::cover!(n > i32::MAX as u32); kani::cover!(n == 0);
+        match r {
+            Some(e) => {
+                assert!(wf(e) && e.year() as i64 == ty && e.month() as i64 == tm, "year-month moves by exactly N");
+                let ml = month_len(ty, tm);
+                assert!(e.day() as i64 == if d.day() as i64 <= ml { d.day() as i64 } else { ml }, "day kept, clamped to the last day of the target month");
+            }
+            None => assert!(ty < MIN_Y || ty > MAX_Y, "fails only when the target year is out of range"),
+        }
+        if n == 0 { assert!(r == Some(d), "Months(0) is the identity"); }
+    }
+
+    // fns: NaiveDate::checked_add_months, NaiveDate::diff_months
+    #[kani::proof]
+    fn vk_date_add_months() { check_months(any_date(), kani::any(), true); }
+
+    // fns: NaiveDate::checked_sub_months, NaiveDate::diff_months
+    #[kani::proof]
+    fn vk_date_sub_months() { check_months(any_date(), kani::any(), false); }
+
+    // fns: NaiveDate::from_weekday_of_month_opt
+    #[kani::proof]
+    fn vk_date_weekday_of_month() {
+        let y: i32 = kani::any(); let m: u32 = kani::any(); let n: u8 = kani::any(); let wd = any_wd();
+        let r = NaiveDate::from_weekday_of_month_opt(y, m, wd, n);
+        kani::cover!(r.is_some() && n == 5); kani::cover!(r.is_none() && n == 5 && m == 2);
+        let in_range = (y as i64) >= MIN_Y && (y as i64) <= MAX_Y && m >= 1 && m <= 12;
+        match r {
+            Some(d) => {
+                assert!(wf(d) && d.year() == y && d.month() == m && d.weekday() == wd, "n-th weekday lies in that month and has that weekday");
+                assert!(n >= 1 && d.day() as i64 >= 7 * (n as i64 - 1) + 1 && d.day() as i64 <= 7 * n as i64, "it is the n-th one");
+            }
+            None => {
+                // None only if there is no n-th such weekday: n = 0, bad year/month, or the n-th falls past the end of the month
+                if in_range && n >= 1 && n <= 4 { assert!(false, "the first four occurrences always exist"); }
+                if in_range && n == 5 {
+                    // the 5th exists iff some day d in 29..=len has that weekday
+                    let len = month_len(y as i64, m as i64);
+                    let first_wd = weekday_yo(y as i64, cum_days(y as i64, m as i64) + 1);
+                    let off = (7 + wd_idx(wd) as i64 - first_wd) % 7;         // day-1 of the first occurrence
+                    assert!(off + 29 > len, "a fifth occurrence that exists is returned");
+                }
+            }
+        }
+    }
+
+    // fns: NaiveDate::years_since
+    #[kani::proof]
+    fn vk_date_years_since() {
+        let a = any_date(); let b = any_date();
+        let r = a.years_since(b);
+        let before = (a.month(), a.day()) < (b.month(), b.day());
+        let whole = a.year() as i64 - b.year() as i64 - if before { 1 } else { 0 };
+        kani::cover!(whole == 0 && before == false && a.year() == b.year()); kani::cover!(r.is_none());
+        match r { Some(n) => assert!(whole >= 0 && n as i64 == whole, "whole years elapsed"), None => assert!(whole < 0, "None only when self is before base") }
+    }
+
+    // fns: Datelike::quarter, Datelike::year_ce, Datelike::num_days_in_month (provided methods at NaiveDate), NaiveDate::weeks_from
+    #[kani::proof]
+    fn vk_date_quarter_ce_dim() {
+        let d = any_date();
+        kani::cover!(d.year() <= 0);
+        assert!(d.quarter() == (d.month() + 2) / 3, "quarter");
+        let (ce, yy) = d.year_ce();
+        assert!(ce == (d.year() >= 1) && yy as i64 == if d.year() >= 1 { d.year() as i64 } else { 1 - d.year() as i64 }, "year 0 = 1 BCE");
+        assert!(d.num_days_in_month() as i64 == month_len(d.year() as i64, d.month() as i64), "days in month");
+        let s = any_wd();
+        // weeks_from(s): number of the week (weeks starting on s; days before the first s are week 0)
+        let first_s = (7 + wd_idx(s) as i64 - weekday_yo(d.year() as i64, 1)) % 7 + 1;     // ordinal of the first `s` of the year
+        let want = if (d.ordinal() as i64) < first_s { 0 } else { (d.ordinal() as i64 - first_s) / 7 + 1 };
+        assert!(d.weeks_from(s) as i64 == want, "weeks_from counts weeks starting on the given weekday");
+    }
 }
